@@ -20,7 +20,8 @@ _n = [0]
 
 FACTORIES = {"list": list, "dict": dict, "five": lambda: 5}
 ALIAS_GENS = {"upper": lambda s: s.upper(), "camel": lambda s: "".join(w.capitalize() for w in s.split("_")),
-              "dash": lambda s: s.replace("_", "-")}
+              "dash": lambda s: s.replace("_", "-"), "suffix": lambda s: s + "_in", "twice": lambda s: s + s}
+NAMING_KEYS = ("alias_generator", "alias_from_generator")
 NO_INPUT_FNS = {"fn:falsy": lambda v: not v}
 NO_OUTPUT_FNS = {"fn:none": lambda v: v is None}
 
@@ -96,7 +97,7 @@ def build_decl(d, registry=None):
     parent = None
     if d.get("parent") is not None:
         # letter-case handling of a field is fixed when its class is declared: the parent is declared with the same choice
-        popts = {k: v for k, v in (d.get("options") or {}).items() if k == "case_insensitive"}
+        popts = {k: v for k, v in (d.get("options") or {}).items() if k == "case_insensitive" or k in NAMING_KEYS}
         parent = build_decl(dict(d["parent"], base=base, name=d["parent"].get("name") or name + "Base", options=popts), registry)
     if base == "deco":
         cls = type(name, (parent,) if parent is not None else (), ns)
@@ -118,6 +119,35 @@ def cleanup():
 
 
 # -- names ------------------------------------------------------------------------------------------
+
+def resolve_naming(d):
+    """the same declaration with the class-level naming options written out per field (documented rule: alias_generator names the
+    fields that declare no alias, alias_from_generator gives input names to the fields that declare no alias_from)"""
+    o = d.get("options") or {}
+    if not any(k in o for k in NAMING_KEYS):
+        return d
+    import json
+    d = json.loads(json.dumps(d))
+    ag, afg = o.get("alias_generator"), o.get("alias_from_generator")
+    for fd in d["fields"] + list((d.get("parent") or {}).get("fields", [])):
+        f = fd.get("f") or {}
+        if ag and "alias" not in f and "alias_gen" not in f:
+            f["alias_gen"] = ag
+        if afg and not f.get("alias_from"):
+            names = []
+            for g in (afg if isinstance(afg, list) else [afg]):
+                n = ALIAS_GENS[g](fd["name"])
+                if n and n != fd["name"] and n not in names:
+                    names.append(n)
+            if names:
+                f["alias_from"] = names
+        if f:
+            fd["f"] = f
+    d["options"] = {k: v for k, v in o.items() if k not in NAMING_KEYS}
+    if not d["options"]:
+        d.pop("options")
+    return d
+
 
 def all_fields(d):
     """the fields the class ends up with: inherited ones that are not redeclared, then its own"""
@@ -369,8 +399,25 @@ CLASS_OPTIONS = st.fixed_dictionaries({}, optional={
 })
 
 
+NAMING_OPTIONS = st.fixed_dictionaries({}, optional={
+    "alias_generator": st.sampled_from(["upper", "camel"]),
+    "alias_from_generator": st.one_of(st.sampled_from(["suffix", "twice", "upper"]), st.just(["suffix", "twice"])),
+})
+
+
+CLASS_AND_NAMING_OPTIONS = st.tuples(CLASS_OPTIONS, st.one_of(st.just({}), st.just({}), NAMING_OPTIONS)).map(lambda t: dict(t[0], **t[1]))
+
+
 def key_candidates(d, options=None):
     """(field name or None, key) pairs an input may use"""
+    # names the class-level input-name generator would give to fields that declare their own alias_from: unknown keys (documented)
+    afg = (d.get("options") or {}).get("alias_from_generator")
+    overridden = []
+    if afg:
+        for fd in d["fields"] + list((d.get("parent") or {}).get("fields", [])):
+            if (fd.get("f") or {}).get("alias_from"):
+                overridden += [ALIAS_GENS[g](fd["name"]) for g in (afg if isinstance(afg, list) else [afg])]
+    d = resolve_naming(d)
     opts = options if options is not None else d.get("options")
     out = []
     for fd in all_fields(d):
@@ -380,6 +427,8 @@ def key_candidates(d, options=None):
                 out.append((fd["name"], cv))
     out += [(None, "extra"), (None, "x1"), (None, "Extra"), (None, "zz")]
     out += [(None, n) for n in stale_names(d)]
+    taken = {k for _, k in out}
+    out += [(None, n) for n in overridden if n not in taken] * 3
     return out
 
 
@@ -400,6 +449,7 @@ def _equal_twin(v):
 
 def inputs_for(d, options=None):
     """strategy: ValueSpec of a dict input for decl d"""
+    d = resolve_naming(d)
     cands = key_candidates(d, options)
     by_field = {fd["name"]: fd for fd in all_fields(d)}
     stale = stale_names(d)
